@@ -32,7 +32,11 @@ impl SchemeSpec {
             }
         }
         for f in &self.functions {
-            b.add_function(*f, seams::function_def(f)).expect("function");
+            if *f == "concat" {
+                b.add_function("concat", wirefilter::ConcatFunction::new()).expect("function");
+            } else {
+                b.add_function(*f, seams::function_def(f)).expect("function");
+            }
         }
         for (ty, kind) in &self.lists {
             match kind {
@@ -134,7 +138,7 @@ pub fn scheme_family(which: usize) -> SchemeSpec {
                 f("ssl", Bool, false),
                 f("bot", Bool, true),
             ],
-            functions: vec!["echo", "lower", "len", "join", "boom", "idint", "idip"],
+            functions: vec!["echo", "lower", "len", "join", "boom", "idint", "idip", "concat"],
             lists: vec![],
             nil_ne: true,
         },
@@ -152,7 +156,7 @@ pub fn scheme_family(which: usize) -> SchemeSpec {
                 f("map_map", Map(b(Map(b(Ip)))), true),
                 f("host", Bytes, true),
             ],
-            functions: vec!["echo", "lower", "len", "join", "boom"],
+            functions: vec!["echo", "lower", "len", "join", "boom", "concat"],
             lists: vec![],
             nil_ne: true,
         },
@@ -178,7 +182,7 @@ pub fn scheme_family(which: usize) -> SchemeSpec {
                 f("deep", Array(b(Map(b(Array(b(Int)))))), true),
                 f("mand", Int, false),
             ],
-            functions: vec!["echo", "lower", "len", "join", "boom", "idint", "idip"],
+            functions: vec!["echo", "lower", "len", "join", "boom", "idint", "idip", "concat"],
             lists: vec![],
             nil_ne: true,
         },
@@ -394,7 +398,7 @@ fn wrap_fn(spec: &SchemeSpec, text: String, ty: &MType) -> (String, MType) {
         .iter()
         .copied()
         .filter(|f| match (*f, ty) {
-            ("echo" | "lower" | "len" | "join" | "boom", MType::Bytes) => true,
+            ("echo" | "lower" | "len" | "join" | "boom" | "concat", MType::Bytes) => true,
             ("idint", MType::Int) => true,
             ("idip", MType::Ip) => true,
             _ => false,
@@ -427,6 +431,15 @@ fn wrap_fn(spec: &SchemeSpec, text: String, ty: &MType) -> (String, MType) {
                 }
             };
             (format!("join({text}{extra})"), MType::Bytes)
+        }
+        "concat" => {
+            // built-in concat: needs at least two arguments; the second is a literal or another (possibly expensive) expression
+            let second = match choose(3, "expr.concat_2nd") {
+                0 => "\"-x\"".to_string(),
+                1 => gen_path(spec, Some(&MType::Bytes), false).map(|(p, _, _)| p).unwrap_or_else(|| "\"y\"".to_string()),
+                _ => gen_path(spec, Some(&MType::Bytes), false).map(|(p, _, _)| format!("lower({p})")).unwrap_or_else(|| "\"z\"".to_string()),
+            };
+            (format!("concat({text}, {second})"), MType::Bytes)
         }
         other => (format!("{other}({text})"), ty.clone()),
     }
